@@ -149,7 +149,7 @@ template <class A> void run_case(vf::Ctx& c, int archId) {
 	bool outOfOrder = false, hasAbsent = false, partly = false; const std::vector<Op> script = gen_script(c.src, obj, 2, outOfOrder, hasAbsent, partly);
 	// alignment of the object relative to the 256-byte buffer of the stream reader
 	const size_t pad = c.src.coin() ? 200 + c.src.draw(80) : c.src.draw(600);
-	Cfg cfg; cfg.stream = c.src.chance(2, 3); cfg.streamKind = cfg.stream ? static_cast<int>(c.src.draw(2)) : 0; cfg.chunk = c.src.coin() ? 1 + c.src.draw(8) : 1 + c.src.draw(300);
+	Cfg cfg; cfg.stream = c.src.chance(2, 3); cfg.streamKind = cfg.stream ? gen_stream_kind(c.src, archId == MSGPACK) : 0; cfg.chunk = c.src.coin() ? 1 + c.src.draw(8) : 1 + c.src.draw(300);
 	const std::string padStr = "p" + std::string(pad, 'p'), sentinel = "S" + std::to_string(c.src.draw(100000));
 	const Val env = archId == XML ? refmp::mkMap({ { refmp::mkStr("pad"), refmp::mkStr(padStr) }, { refmp::mkStr("obj"), obj }, { refmp::mkStr("zsentinel"), refmp::mkStr(sentinel) } }) : refmp::mkArr({ refmp::mkStr(padStr), obj, refmp::mkStr(sentinel) });
 	Cfg mem; std::string bytes; Outcome so = dyn::save<A>(env, bytes, mem); if (!so.ok()) c.fail("saving the document failed", so.str());
@@ -175,7 +175,7 @@ struct RowProg { const std::map<std::string, std::string>* row; std::vector<std:
 }
 VF_PROPERTY(script_csv_rows, 3, "CSV: rows of a table requested by name in any order with absent columns and repeated requests (stream reader un-escapes quoted cells in place), next row as the sentinel; non-trivial = a quoted cell is requested twice or out of order")
 {
-	Cfg cfg; cfg.stream = c.src.chance(2, 3); cfg.streamKind = cfg.stream ? static_cast<int>(c.src.draw(2)) : 0; cfg.chunk = 1 + c.src.draw(300);
+	Cfg cfg; cfg.stream = c.src.chance(2, 3); cfg.streamKind = cfg.stream ? gen_stream_kind(c.src, false) : 0; cfg.chunk = 1 + c.src.draw(300);
 	const size_t cols = 1 + c.src.draw(6), rows = 1 + c.src.draw(4); std::vector<std::map<std::string, std::string>> table(rows); bool quoted = false;
 	for (auto& r : table) for (size_t k = 0; k < cols; k++) { std::string v; size_t n = c.src.len(10); for (size_t i = 0; i < n; i++) { switch (c.src.draw(6)) { case 0: v.push_back('"'); break; case 1: v.push_back(','); break; case 2: v += "\r\n"; break; default: v.push_back(static_cast<char>(0x21 + c.src.draw(0x5e))); break; } } if (c.src.chance(1, 8)) v += std::string(250, 'L'); if (v.find_first_of("\",\r\n") != std::string::npos) quoted = true; r["c" + std::to_string(k)] = v; }
 	std::string bytes; Cfg mem; if (!save<CsvArchive>(table, bytes, mem).ok()) c.fail("saving failed", "");
@@ -198,6 +198,16 @@ struct TypedKeyProg {
 			for (size_t idx : *order) {
 				int64_t v = 990099; bool ok = false; const bool absent = idx >= entries->size();
 				const Val key = absent ? (idx % 2 ? refmp::mkInt(-9000000 - static_cast<int64_t>(idx)) : refmp::mkF64(9123456.5 + static_cast<double>(idx))) : (*entries)[idx].first;
+				if (absent && idx == entries->size() + 1) {   // absent key that shares its bit pattern (at 8 / 16 / 32 / 64 bit) with a stored unsigned key: negative intN_t(-a) against 2^N - a
+					for (const auto& e : *entries) { if (e.first.t != RT::UInt || e.first.u < 0x80) continue; const uint64_t U = e.first.u; int64_t k = 0; int w = 0;
+						if (U > 0xFFFFFFFFull) { k = static_cast<int64_t>(U); w = 64; } else if (U > 0xFFFF) { k = static_cast<int32_t>(static_cast<uint32_t>(U)); w = 32; } else if (U > 0xFF) { k = static_cast<int16_t>(static_cast<uint16_t>(U)); w = 16; } else { k = static_cast<int8_t>(static_cast<uint8_t>(U)); w = 8; }
+						if (k >= 0) continue; bool present = false; for (const auto& e2 : *entries) if (e2.first.t == RT::Int && e2.first.i == k) present = true; if (present) continue;
+						int64_t v2 = 990099; bool ok2 = false; int8_t k8 = static_cast<int8_t>(k); int16_t k16 = static_cast<int16_t>(k); int32_t k32 = static_cast<int32_t>(k);
+						if (w == 8) ok2 = BitSerializer::Serialize(ar, k8, v2); else if (w == 16) ok2 = BitSerializer::Serialize(ar, k16, v2); else if (w == 32) ok2 = BitSerializer::Serialize(ar, k32, v2); else ok2 = BitSerializer::Serialize(ar, k, v2);
+						if ((ok2 || v2 != 990099) && !fail->has_value()) *fail = Failure{ "a request for an absent typed key reports loaded or changes the target", vf::cat("int", w, "_t(", k, ") requested, the object holds the unsigned key ", U, "; got ", v2, " ok=", ok2) };
+						break; }
+					continue;
+				}
 				switch (key.t) { case RT::Int: ok = BitSerializer::Serialize(ar, key.i, v); break; case RT::UInt: ok = BitSerializer::Serialize(ar, key.u, v); break; case RT::F64: ok = BitSerializer::Serialize(ar, key.d, v); break; case RT::F32: ok = BitSerializer::Serialize(ar, key.f, v); break;
 				case RT::Ts: { BitSerializer::Detail::CBinTimestamp ts(key.tsSec, static_cast<int32_t>(key.tsNs)); ok = BitSerializer::Serialize(ar, ts, v); break; } default: { std::string k = key.s; ok = BitSerializer::Serialize(ar, k, v); break; } }
 				if (absent) { if ((ok || v != 990099) && !fail->has_value()) *fail = Failure{ "a request for an absent typed key reports loaded or changes the target", refmp::show(key) }; }
@@ -210,11 +220,12 @@ struct TypedKeyProg {
 VF_PROPERTY(script_msgpack_typed_keys, 2, "MsgPack object whose keys are negative / positive integers, uint64, float64, float32, timestamps and strings (any legal key format), requested in any order with repeats and absent typed keys; envelope sentinel behind; non-trivial = out-of-order or repeated request")
 {
 	const size_t n = 1 + c.src.draw(9); std::vector<std::pair<Val, Val>> entries;
-	for (size_t i = 0; i < n; i++) { Val k; switch (c.src.draw(6)) { case 0: k = refmp::mkInt(-1 - static_cast<int64_t>(i) * 1000 - static_cast<int64_t>(c.src.draw(900))); break; case 1: k = refmp::mkUInt(i * 1000 + c.src.draw(900)); break; case 2: k = refmp::mkF64(0.25 + static_cast<double>(i)); break; case 3: k = refmp::mkF32(0.5f + static_cast<float>(i)); break; case 4: k = refmp::mkTs(static_cast<int64_t>(i) * 100 + 5, static_cast<uint32_t>(c.src.draw(1000))); break; default: k = refmp::mkStr("k" + std::to_string(i)); break; } entries.push_back({ k, refmp::mkInt(-500 + static_cast<int64_t>(c.src.draw(1000)) - 70000) }); }
+	for (size_t i = 0; i < n; i++) { Val k; switch (c.src.draw(6)) { case 0: k = refmp::mkInt(-1 - static_cast<int64_t>(i) * 1000 - static_cast<int64_t>(c.src.draw(900))); break; case 1: if (c.src.chance(1, 3)) { static const uint64_t tops[] = { 0x100ull, 0x10000ull, 0x100000000ull, 0ull }; k = refmp::mkUInt(tops[c.src.draw(4)] - (1 + i * 3 + c.src.draw(3))); break; }   // 2^N - a: the bit pattern of the negative intN_t(-a), which is another key
+			k = refmp::mkUInt(1000 + i * 1000 + c.src.draw(900)); break; case 2: k = refmp::mkF64(0.25 + static_cast<double>(i)); break; case 3: k = refmp::mkF32(0.5f + static_cast<float>(i)); break; case 4: k = refmp::mkTs(static_cast<int64_t>(i) * 100 + 5, static_cast<uint32_t>(c.src.draw(1000))); break; default: k = refmp::mkStr("k" + std::to_string(i)); break; } entries.push_back({ k, refmp::mkInt(-500 + static_cast<int64_t>(c.src.draw(1000)) - 70000) }); }
 	std::vector<size_t> order; size_t len = c.src.len(14); bool ooo = false; for (size_t i = 0; i < len; i++) { size_t idx = c.src.draw(n + 2); if (!order.empty() && idx <= order.back()) ooo = true; order.push_back(idx); }
 	const size_t pad = c.src.coin() ? 220 + c.src.draw(60) : c.src.draw(400); const std::string padStr(pad, 'p');
 	std::string bytes; { bool dummy = false; (void)dummy; Val env = refmp::mkArr({ refmp::mkStr(padStr), refmp::mkMap(entries), refmp::mkStr("sentinel") }); bytes = refmp::encodeMinimal(env); }   // minimal formats: the 96-bit timestamp layout is subject to the recorded finding KF-35
-	Cfg cfg; cfg.stream = c.src.chance(2, 3); cfg.streamKind = cfg.stream ? static_cast<int>(c.src.draw(2)) : 0; cfg.chunk = 1 + c.src.draw(300);
+	Cfg cfg; cfg.stream = c.src.chance(2, 3); cfg.streamKind = cfg.stream ? gen_stream_kind(c.src, true) : 0; cfg.chunk = 1 + c.src.draw(300);
 	c.nontrivial = ooo; c.describe(vf::cat("typed keys n=", n, " pad=", pad, " order=", order.size(), " ", cfg.str(), " ", vf::hex(bytes.substr(bytes.size() > 80 ? bytes.size() - 80 : 0))));
 	std::optional<Failure> fail; std::tuple<std::string, TypedKeyProg, std::string> t; std::get<1>(t).entries = &entries; std::get<1>(t).order = &order; std::get<1>(t).fail = &fail;
 	Outcome lo = load<MsgPackArchive>(t, bytes, cfg);
